@@ -21,7 +21,7 @@ RULE = ("(a) every schema-supported schema used as a defaulted field of an owner
 ASSUMPTIONS = ["metaschema check = jsonschema.Draft202012Validator.check_schema", "self-referencing dataclasses: one open finding"]
 UNIT_TIMEOUT = 900
 CHUNK = 4
-RECLIMIT = 400
+RECLIMIT = 300
 L = space.leaf
 UNSUPPORTED_LEAVES = {"pattern", "sertype"}
 
